@@ -415,23 +415,3 @@ package proj
 //@   ensures [lon] err == nil ==> lon == js_adjust_lon((*this).Long0 + coneTheta(*ns, x@0 - (*this).X0, *rh - y@0 + (*this).Y0) / *ns)
 //@   ensures [sphere_lat] err == nil && (*this).sphere ==> lat == js_adjust_lat(*g - coneRh(*ns, x@0 - (*this).X0, *rh - y@0 + (*this).Y0) / (*this).A)
 //@   modifies nothing
-
-// The projection constructors run for every transformed point on the shared *SR (NewTransform's
-// closure calls Transformers each time). Their verdict must therefore hold in the state they leave
-// behind: a constructor that succeeds leaves parameters that pass its own validation, so the next
-// call on the same SR decides the same way (history independence, C10).
-//@ func LCC
-//@   prop C10
-//@   mode real
-//@   opt noframe=SR,float64
-//@   requires [sr] this != nil
-//@   ensures [verdict_holds_afterwards] err == nil ==> !isNaN(this.Lat2) && !(abs(this.Lat1 + this.Lat2) < 1.0e-10)
-//@   ensures [closures] err == nil ==> forward != nil && inverse != nil
-
-//@ func EqdC
-//@   prop C10
-//@   mode real
-//@   opt noframe=SR,float64
-//@   requires [sr] this != nil
-//@   ensures [verdict_holds_afterwards] err == nil ==> !isNaN(this.Lat2) && !(abs(this.Lat1 + this.Lat2) < 1.0e-10)
-//@   ensures [closures] err == nil ==> forward != nil && inverse != nil
